@@ -64,6 +64,10 @@ def memo_policy(ctx, g, wr, key):
                 ctx.undecided(key, ctx.where(g, wr.node), "%s keeps `%s` between calls (added since the review); it is handed out again only under a test that reads the object's state, or this rule cannot read when: no verdict on whether it can go stale"
                               % (g.qualname.split(".", 3)[-1], m_.group(1)))
                 return True
+    if "__dict__.setdefault" in (wr.why or "") or "__dict__.get" in (wr.why or ""):
+        # an attribute created on demand through the instance dictionary: by construction one the reviewed class does not have
+        ctx.undecided(key, ctx.where(g, wr.node), "%s keeps a table it creates on demand in the instance dictionary (%s), added since the review: a memo; whether it can go stale is not read here" % (g.qualname.split(".", 3)[-1], (wr.why or "")[:60]))
+        return True
     m2_ = _re.match(r"^([A-Za-z_]\w*)[\[.]", recv)
     if m2_ is not None and "free variable" in (wr.why or ""):
         from sa import shared_state as _ss
